@@ -1,6 +1,6 @@
 (* Dispatch.v — single entry point used by the OCaml runner and by the in-Coq
    cross-check: component name + input value -> observation value. *)
-From XV Require Import Base Options Worker Ctl Sched DSession System StatRec Rsync Warn GroupMark CtlRun.
+From XV Require Import Base Options Worker Ctl Sched DSession System StatRec Rsync Warn GroupMark CtlRun CollDiff.
 
 Definition dispatch (name : string) (input : sx) : sx :=
   if String.eqb name "options" then run_options input
@@ -23,6 +23,7 @@ Definition dispatch (name : string) (input : sx) : sx :=
                    end
     | _ => bad_input
     end
+  else if String.eqb name "colldiff_msg" then run_colldiff input
   else if String.eqb name "statrec" then run_statrec input
   else if String.eqb name "remember" then run_remember input
   else if String.eqb name "reltoroot" then run_reltoroot input
